@@ -22,6 +22,7 @@ import (
 	"encoding/base64"
 	"encoding/hex"
 	"encoding/json"
+	"encoding/pem"
 	"errors"
 	"flag"
 	"fmt"
@@ -60,6 +61,9 @@ type Case struct {
 	// RA: the issuing token carries step.ra, so the database record has RaInfo and the lookup by
 	// database id returns the provisioner inside a wrappedProvisioner
 	RA bool `json:"ra,omitempty"`
+	// PType: for State "typed", the type of the provisioner that carries the recorded name at renewal
+	// time (every controller-based type that initialises offline): ACME | X5C | K8sSA | AWS
+	PType string `json:"ptype,omitempty"`
 	// Entry "" = direct call of Authority.Renew/Rekey; "token" = POST /1.0/renew handler with a
 	// renew token (Authorization: Bearer, x5cInsecure) built as Tok says.
 	Entry string `json:"entry,omitempty"`
@@ -68,7 +72,8 @@ type Case struct {
 
 var (
 	issueKinds = []string{"both", "dbonly", "extonly", "none", "badext", "badext+db"}
-	states     = []string{"present", "removed", "replaced", "renamed", "uninit", "base"}
+	states     = []string{"present", "removed", "replaced", "renamed", "uninit", "base", "typed"}
+	ptypes     = []string{"ACME", "X5C", "K8sSA", "AWS"}
 	customs    = []string{"n", "a", "r"}
 	times      = []string{"valid", "nyv", "expired"}
 	revs       = []string{"no", "yes", "err"}
@@ -194,7 +199,7 @@ func (w *world) renewAuthority(c Case) *fixture.CA {
 	if c.State == "removed" || c.State == "uninit" || c.State == "base" {
 		d, a = false, false
 	}
-	key := fmt.Sprintf("%s/%v/%v/%s/%v", c.State, d, a, c.Custom, c.Rev == "err")
+	key := fmt.Sprintf("%s%s/%v/%v/%s/%v", c.State, c.PType, d, a, c.Custom, c.Rev == "err")
 	if ca, ok := w.renewer[key]; ok {
 		return ca
 	}
@@ -206,6 +211,22 @@ func (w *world) renewAuthority(c Case) *fixture.CA {
 		provs = provisioner.List{jwkProv(w.key1, claims, nil)}
 	case "replaced":
 		provs = provisioner.List{jwkProv(w.key2, claims, nil)}
+	case "typed":
+		// another kind of provisioner answers for the recorded name; every kind must apply the same
+		// gates through its controller
+		rootPEM := pem.EncodeToMemory(&pem.Block{Type: "CERTIFICATE", Bytes: w.base.MiniCA.Root.Raw})
+		switch c.PType {
+		case "ACME":
+			provs = provisioner.List{&provisioner.ACME{Type: "ACME", Name: provName, Claims: claims}}
+		case "X5C":
+			provs = provisioner.List{&provisioner.X5C{Type: "X5C", Name: provName, Roots: rootPEM, Claims: claims}}
+		case "K8sSA":
+			spki, _ := x509.MarshalPKIXPublicKey(w.base.MiniCA.Intermediate.PublicKey)
+			provs = provisioner.List{&provisioner.K8sSA{Type: "K8sSA", Name: provName, Claims: claims,
+				PubKeys: pem.EncodeToMemory(&pem.Block{Type: "PUBLIC KEY", Bytes: spki})}}
+		case "AWS":
+			provs = provisioner.List{&provisioner.AWS{Type: "AWS", Name: provName, Accounts: []string{"123456789012"}, Claims: claims}}
+		}
 	case "renamed":
 		// the recorded provisioner (same id) now has another name and the claims of the case; a
 		// different provisioner (other key, other id, default claims) has taken over the old name
@@ -257,6 +278,11 @@ func provAt(c Case, byID bool) string {
 		return fmt.Sprintf("ctl:00%s", c.Custom)
 	case "uninit":
 		return "uninit"
+	case "typed": // other type: other id, same name, controller-based
+		if byID {
+			return "gone"
+		}
+		return ctl
 	case "base": // SSHPOP id is "sshpop/p"
 		if byID {
 			return "gone"
@@ -406,6 +432,12 @@ func (w *world) renewToken(p prepared) string {
 func tokenBits(c Case) string {
 	b := map[string]string{"ok": "111111", "issp": "111111", "garbage": "011111", "badsig": "101111",
 		"reuse": "110111", "sub": "111011", "exp": "111011", "aud": "111101", "iss": "111110"}
+	if c.Tok == "reuse" && c.State == "typed" && (c.PType == "ACME" || c.PType == "K8sSA" || c.PType == "AWS") {
+		// the third bit is "Authority.UseToken(ott, p) returned nil": UseToken records a token only when
+		// p.GetTokenID(ott) succeeds, and these types' GetTokenID fails on a renew token (ACME and
+		// K8sSA: not implemented; AWS: not an instance identity token) - a reused token passes
+		return "111111"
+	}
 	if c.Tok == "issp" && c.State == "renamed" && (c.Issue == "both" || c.Issue == "dbonly" || c.Issue == "badext+db") {
 		// the old-style issuer claim is the provisioner *name*; the provisioner resolved through the
 		// database id is the renamed one, whose name is no longer the one in the token
@@ -504,7 +536,12 @@ func (w *world) renew(p prepared) (out string, nyv, exp, stable bool) {
 
 func fixedCases() []Case {
 	var cs []Case
-	add := func(c Case) { cs = append(cs, c) }
+	add := func(c Case) {
+		if c.State == "typed" && c.PType == "" {
+			c.PType = ptypes[len(cs)%len(ptypes)]
+		}
+		cs = append(cs, c)
+	}
 	// the two known shapes first
 	add(Case{Issue: "dbonly", State: "removed", Custom: "n", Time: "valid", Rev: "no"})
 	add(Case{Issue: "both", State: "uninit", Custom: "n", Time: "valid", Rev: "no"})
@@ -550,6 +587,23 @@ func fixedCases() []Case {
 				add(Case{Issue: is, State: "replaced", D: d, A: !d, Custom: "n", Time: tm, Rev: "no", Rekey: !d})
 			}
 		}
+	}
+	// every controller-based provisioner type applies the same gates (claims, validity, custom func)
+	for _, pt := range ptypes {
+		for _, tm := range times {
+			for _, d := range []bool{false, true} {
+				for _, a := range []bool{false, true} {
+					add(Case{Issue: "both", State: "typed", PType: pt, D: d, A: a, Custom: "n", Time: tm, Rev: "no", Rekey: d != a})
+				}
+			}
+			add(Case{Issue: "extonly", State: "typed", PType: pt, Custom: "r", Time: tm, Rev: "no"})
+			add(Case{Issue: "extonly", State: "typed", PType: pt, D: true, Custom: "a", Time: tm, Rev: "no", Rekey: true})
+			add(Case{Issue: "both", State: "typed", PType: pt, A: true, Custom: "n", Time: tm, Rev: "no", Entry: "token", Tok: "ok"})
+		}
+		add(Case{Issue: "both", State: "typed", PType: pt, A: true, Custom: "n", Time: "valid", Rev: "no", Entry: "token", Tok: "reuse"})
+		add(Case{Issue: "extonly", State: "typed", PType: pt, Custom: "n", Time: "valid", Rev: "no", Entry: "token", Tok: "reuse"})
+		add(Case{Issue: "both", State: "typed", PType: pt, Custom: "n", Time: "valid", Rev: "yes"})
+		add(Case{Issue: "dbonly", State: "typed", PType: pt, Custom: "n", Time: "valid", Rev: "no"})
 	}
 	// revocation against every other gate that could let the certificate through: validity window
 	// x allow-after-expiry x how the provisioner resolves x entry x custom func (a revoked
@@ -607,6 +661,9 @@ func randomCase(r *common.Rng) Case {
 	c.RA = r.Chance(1, 6)
 	if r.Chance(1, 4) { // the renew-token entry (renew only)
 		c.Entry, c.Tok, c.Rekey = "token", common.Pick(r, tokKinds), false
+	}
+	if c.State == "typed" {
+		c.PType = common.Pick(r, ptypes)
 	}
 	if r.Chance(1, 2) { // bias to the interesting half: provisioner present, decisions by claims and time
 		c.State = "present"
